@@ -37,17 +37,21 @@ def _output(M, save, rows, cols, tag="o"):
 
 
 @scenario
-def sc_save_json(M, file_exists, rows=2, cols=2, atomic=True):
+def sc_save_json(M, file_exists, rows=2, cols=2, atomic=True, leftovers=False):
     """save_json(path, name, out) over SpecFS, for an ARBITRARY earlier mapping D (membership of `name` symbolic):
     C19  name in D  => no effect on the file system at all; otherwise the new document is D + {name: out.json},
          nothing of D is overwritten or deleted, no other file remains changed;
     C20  after EVERY prefix of the effect trace the content of the results file is either exactly the old
          content or a complete new document (never truncated / partial / missing)."""
     if not M.symbolic:
-        return _native_save_crash(M, file_exists, rows, cols) if atomic else None
+        return _native_save_crash(M, file_exists, rows, cols, leftovers) if atomic else None
     save = M.mod("run.save")
     fs = M.pkg.fs
     fs.files.clear(); fs.dirs.clear(); del fs.trace[:]; del fs.snapshots[:]
+    # leftovers: the directory may hold files an earlier crashed save left behind (any sibling the code writes to is
+    # then an existing file with stale bytes of unknown length) - histories "crash, then save" in one step
+    fs.stale_siblings = bool(leftovers)
+    fs.fresh_paths = ()
     present = M.bool("name_already_saved")
     D = FSM.SymDict(lambda k: present, other_keys=OTHER_NAMES)
     D.name = "run-7"
@@ -186,9 +190,15 @@ def _native_save_pipeline(M, rows, cols):
         shutil.rmtree(d, ignore_errors=True)
 
 
-def _native_save_crash(M, file_exists, rows, cols):
+def _native_save_crash(M, file_exists, rows, cols, leftovers=False):
     """Native replay: the real save_json with the k-th write/close/replace made to fail, for every k."""
     from rt import crash
+    if leftovers:
+        bad = crash.crash_then_save(1 if file_exists else 0, rows, cols)
+        M.check("new_name.document_written", not bad)
+        M.check("atomic.every_crash_point", not bad)
+        M.meta["crash_witnesses"] = bad[:3]
+        return
     bad = crash.crash_sweep(1 if file_exists else 0, rows, cols)
     M.check("atomic.every_crash_point", not bad)
     M.meta["crash_witnesses"] = bad[:3]
